@@ -1,2 +1,26 @@
-// verification hooks (see /verif/DESIGN.md section 10); compiled only with --features verif-hooks
+// Verification hooks for src/lfu/tinylfu/bloom.rs
 #![allow(missing_docs, dead_code, unused_imports)]
+use super::*;
+
+impl Bloom {
+    /// a small doorkeeper for harnesses: `words` 64-bit words (a power of two), `locs` probe positions.
+    /// It satisfies the invariant Bloom::new establishes (mask = bits - 1, shift = 64 - log2(bits)).
+    pub(crate) fn verif_small(words: Vec<u64>, locs: u64) -> Self {
+        let bits = (words.len() as u64) * 64;
+        let mut exp = 0u64;
+        while (1u64 << exp) < bits {
+            exp += 1;
+        }
+        Bloom { bitset: words, elem_num: 0, size_exp: exp, size: bits - 1, set_locs: locs, shift: 64 - exp }
+    }
+    pub(crate) fn verif_word(&self, i: usize) -> u64 {
+        self.bitset[i]
+    }
+    pub(crate) fn verif_words(&self) -> usize {
+        self.bitset.len()
+    }
+    /// (bitset length in bits, mask, shift, set_locs, size_exp)
+    pub(crate) fn verif_config(&self) -> (u64, u64, u64, u64, u64) {
+        ((self.bitset.len() as u64) * 64, self.size, self.shift, self.set_locs, self.size_exp)
+    }
+}
